@@ -37,6 +37,17 @@ impl ModuleLoader {
             .last()
             .cloned()
             .expect("needs.path validated as non-empty");
+        if let Some(reason) = &self.manifest_error {
+            return Err(AelysError::Compile(CompileError::new(
+                CompileErrorKind::InvalidNativeModule {
+                    module: module_path_str.to_string(),
+                    reason: format!("the project manifest could not be read ({})", reason),
+                },
+                needs.span,
+                self.source.clone(),
+            )));
+        }
+
         if let Some(policy) = self.native_policy(module_path_str, &module_name) {
             if !policy.capabilities.is_empty()
                 && let Err(denied_cap) = vm.config().check_native_capabilities(&policy.capabilities)
